@@ -64,14 +64,16 @@ static void run_pt(int k) {
         if (op == 'p') { int n = pmc_choose(3, PMC_PROG, 0, "pad yields"); for (int k = 0; k < n; k++) thread_yield(); continue; }   // every arrival order on one vCPU
         if (op == 'q') { if (pmc_choose(2, PMC_PROG, 0, "pad yield")) thread_yield(); continue; }
         bool nested = (op == 'N');          // recursive: lock twice
+        bool hold = (op == 'H');            // lock, keep it across a 10 us sleep (the vCPU goes idle: waiters on other vCPUs queue up by default), unlock
         uint64_t t_start = mv_now();
         errno = 0;
-        int r = do_lock(nested ? 'L' : op);
+        int r = do_lock(nested || hold ? 'L' : op);
         int e = errno;
         if (r == 0) {
             enter_cs(p);
             if (nested) { int r2 = do_lock('L'); if (r2 != 0) pmc_violation("recursive-relock-failed", "owner could not re-lock"); }
             mv_yield("in critical section");
+            if (hold) { mv_register_deadline(mv_now() + 10); thread_usleep(10); }
             if (G->pts.size() > (size_t)G->nvcpu) thread_yield();   // let same-vCPU threads run while we hold the lock
             mv_yield("in critical section 2");
             if (nested) do_unlock();
@@ -81,7 +83,7 @@ static void run_pt(int k) {
         } else {
             thread* o = G->recursive ? G->rm->owner.load() : G->m->owner.load();
             if (o == CURRENT) pmc_violation("failed-lock-owns", "lock() failed (errno %d) for thread %d but it is the owner", e, p.idx);
-            if (op == 'L' && !(e == EINTR && G->interrupts_sent[k])) pmc_violation("lock-failed-without-reason", "untimed lock() returned -1 errno=%d with no interrupt sent", e);
+            if ((op == 'L' || op == 'H' || op == 'N') && !(e == EINTR && G->interrupts_sent[k])) pmc_violation("lock-failed-without-reason", "untimed lock() returned -1 errno=%d with no interrupt sent", e);
             if (op == 'T') {
                 bool timed_out = (e == ETIMEDOUT && mv_now() >= t_start + TMO);
                 bool interrupted = (e == EINTR && G->interrupts_sent[k]);
@@ -118,7 +120,7 @@ void pmc_run(const char* config) {
     st.nvcpu = v + 1;
     pmc_window(0);
     mv_init();
-    mvp::use_fast_stacks();
+    mvp::use_fast_stacks(true);     // released stacks (they hold the thread struct) are poisoned until reused
     mv_time_deviations(strstr(extra, "tdev") != nullptr);
     mv_tso(strstr(extra, "tso") != nullptr); mv_switch_points(0);     // built with -DPHOTON_VERIF for the TSC hook only
     std::vector<pthread_t> vt;
@@ -170,6 +172,10 @@ static const PmcConfig CFG[] = {
     {"m0n:Z|L",                  3, {1,2}, {0,0}, {0,0}, {0,0}, "zero timeout"},
     {"R0n:N|L",                  3, {1,2}, {0,0}, {0,0}, {0,0}, "recursive mutex, nested lock"},
     {"m0n:L|L|L",                2, {1,2}, {0,0}, {0,0}, {0,0}, "three vCPUs"},
+    {"m0n:H|T:tdev",             3, {1,2}, {1,1}, {0,0}, {2,3}, "the owner sleeps while holding: the timed waiter is queued when the unlock runs; its deadline may pass inside unlock()"},
+    {"m0n:H|T,T:tdev",           3, {1,1}, {1,1}, {0,0}, {2,2}, ""},
+    {"m0n:H|L,i1",               3, {1,2}, {0,0}, {0,0}, {0,0}, "... or the waiter is interrupted inside unlock()"},
+    {"m0c:H|T:tdev",             2, {1,2}, {1,1}, {0,0}, {2,3}, ""},
     {"m0n:gen3x1:tdev",          3, {0,0}, {0,1}, {0,0}, {0,0}, "generated: every 3-thread program, one op each from {L,T,Z,Y,i0,i1,i2}, every arrival order"},
     {"m0n:gen2x2",               3, {0,0}, {0,0}, {0,0}, {0,0}, "generated: 2 threads x up to 2 ops"},
     {"m0n:gen3x2",               2, {0,0}, {0,0}, {0,0}, {0,0}, "generated: 3 threads x up to 2 ops"},
